@@ -283,7 +283,7 @@ func visitInstr(fr *frame, instr ssa.Instruction) continuation {
 		fr.runDefers()
 
 	case *ssa.Panic:
-		panic(targetPanic{fr.get(instr.X)})
+		panic(targetPanic{fr.i.forceIface(fr, fr.get(instr.X))})
 
 	case *ssa.Send:
 		fr.i.chanSend(fr, fr.get(instr.Chan).(*chanModel), fr.get(instr.X))
@@ -456,7 +456,7 @@ func visitInstr(fr *frame, instr ssa.Instruction) continuation {
 		}
 
 	case *ssa.TypeAssert:
-		fr.env[instr] = typeAssert(fr.i, instr, fr.get(instr.X).(iface))
+		fr.env[instr] = typeAssert(fr.i, instr, fr.i.forceIface(fr, fr.get(instr.X)))
 
 	case *ssa.MakeClosure:
 		var bindings []value
@@ -492,7 +492,7 @@ func prepareCall(fr *frame, call *ssa.CallCommon) (fn value, args []value) {
 		fn = v
 	} else {
 		// Interface method invocation.
-		recv := v.(iface)
+		recv := fr.i.forceIface(fr, v)
 		if recv.t == nil {
 			panic("method invoked on nil interface")
 		}
@@ -601,9 +601,14 @@ func callSSA(i *interpreter, caller *frame, callpos token.Pos, fn *ssa.Function,
 	for i, fv := range fn.FreeVars {
 		fr.env[fv] = env[i]
 	}
+	thr := i.sched.cur
+	savedFrame := thr.frame
+	thr.frame = fr
 	for fr.block != nil {
 		runFrame(fr)
+		thr.frame = fr
 	}
+	thr.frame = savedFrame
 	// Destroy the locals to avoid accidental use after return.
 	for i := range fn.Locals {
 		fr.locals[i] = bad{}
